@@ -1049,10 +1049,10 @@ func (c *fnCtx) boundFuncArg(v *types.Var) (*ast.FuncLit, *types.Func, *Func) {
 		if k < 0 {
 			continue
 		}
-		if f.bind == nil || f.bind.call == nil || k >= len(f.bind.call.Args) {
+		if f.bind == nil || f.bind.call == nil || k >= len(f.bind.argv()) {
 			return nil, nil, nil
 		}
-		arg := ast.Unparen(f.bind.call.Args[k])
+		arg := ast.Unparen(f.bind.argv()[k])
 		caller := f.bind.caller
 		if lit, ok := arg.(*ast.FuncLit); ok {
 			return lit, nil, caller
@@ -1210,6 +1210,9 @@ func deriveFunc(def *Func, caller *Func, call *ast.CallExpr, recv ast.Expr) *Fun
 	def.isDecodeTarget(nil)
 	d.decodeTargets = def.root().decodeTargets
 	d.bind = &binding{caller: caller, call: call, recv: recv}
+	if def.recvAsParam && call != nil && len(call.Args) > 0 {
+		d.bind.recv, d.bind.args = call.Args[0], call.Args[1:]
+	}
 	d.orig = def
 	return &d
 }
